@@ -81,13 +81,59 @@ func guardedNonNil(v ssa.Value, at *ssa.BasicBlock) bool {
 		return false
 	}
 	fn := at.Parent()
+	// a value kept in a local slot (a named result, a variable a closure captures) is loaded afresh at every
+	// use: two loads of the slot are the same value when no store to the slot lies between them
+	var slot *ssa.Alloc
+	if ld, ok := v.(*ssa.UnOp); ok && ld.Op == token.MUL {
+		slot, _ = ld.X.(*ssa.Alloc)
+	}
 	for _, i := range Ifs(fn) {
 		cd, ok := Classify(i)
-		if !ok || cd.Kind != "nil" || cd.X != v {
+		if !ok || cd.Kind != "nil" {
+			continue
+		}
+		same := cd.X == v
+		if !same && slot != nil {
+			if l2, ok := cd.X.(*ssa.UnOp); ok && l2.Op == token.MUL && l2.X == ssa.Value(slot) {
+				// no store to the slot in the blocks behind the not-nil edge from which `at` is still reachable
+				same = true
+				head := cd.EdgeWhen(false).To()
+				for _, b := range fn.Blocks {
+					if !head.Dominates(b) || !(b == at || reachesBlockAn(b, at, map[*ssa.BasicBlock]bool{})) {
+						continue
+					}
+					for _, in := range b.Instrs {
+						if in == ssa.Instruction(v.(*ssa.UnOp)) {
+							break
+						}
+						if st, ok := in.(*ssa.Store); ok && st.Addr == ssa.Value(slot) {
+							same = false
+						}
+					}
+				}
+			}
+		}
+		if !same {
 			continue
 		}
 		r := Reach(fn, map[Edge]bool{cd.EdgeWhen(false): true})
 		if !r[at] {
+			return true
+		}
+	}
+	return false
+}
+
+func reachesBlockAn(from, to *ssa.BasicBlock, seen map[*ssa.BasicBlock]bool) bool {
+	if from == to {
+		return true
+	}
+	if seen[from] {
+		return false
+	}
+	seen[from] = true
+	for _, s := range from.Succs {
+		if reachesBlockAn(s, to, seen) {
 			return true
 		}
 	}
